@@ -12,6 +12,12 @@
 (*           refused.  The behaviours are all conversion chains a -> b ->    *)
 (*           c ... over the unit table: composition, inverse and the SI      *)
 (*           value are invariants of the machine.                            *)
+(*           A quantity may be complex, value * (1 + k i): units are real, so  *)
+(*           every conversion scales the real and the imaginary part alike    *)
+(*           (cur.n is the real part, the imaginary part is k * cur.n); only  *)
+(*           a real number can be handed out as a float.  The Celsius helper   *)
+(*           for quantities is one more conversion: defined exactly for        *)
+(*           temperatures (n kelvin |-> n - 273.15), refused otherwise.        *)
 (*  "expr":  an arithmetic expression of two quantities is evaluated by      *)
 (*           replacing every quantity by its SI number: the result is the    *)
 (*           SI value of the expression taken as a quantity.                 *)
@@ -28,6 +34,8 @@ CONSTANTS UnitNames,    \* subset of DOMAIN Units
           MaxChain,     \* conversions per chain
           ExprOps,      \* subset of {"mul", "div", "add", "sub", "sq", "scale"}
           ExprUnits, ExprVals,   \* unit and value of the second operand of an expression
+          ImagFactors,  \* k: the quantity a chain starts from is value * (1 + k i) units (0: a real value)
+          ComplexVals,  \* the values that are also taken with an imaginary part
           Temps         \* temperatures the Celsius/kelvin machine starts from, written as 300000000 + millionths
                         \* of a degree (cfg files hold no negative numbers)
 
@@ -66,7 +74,7 @@ Units == [
   aq_s    |-> U(ROne, DDiv(A1, T1)),  \* angle dimension per time: equivalent to a frequency
   liter   |-> U(<<1, 1000>>, Volume), m3      |-> U(ROne, Volume),
   mps     |-> U(ROne, Speed),         kmh     |-> U(<<5, 18>>, Speed),
-  kelvin  |-> U(ROne, K1)
+  kelvin  |-> U(ROne, K1),            mK      |-> U(<<1, 1000>>, K1)      \* a quantity of one millikelvin
 ]
 
 Vals == [ v1 |-> R(1), v2 |-> R(2), vm3 |-> R(-3), vh |-> <<1, 2>>, v75 |-> <<7, 5>>, v1000 |-> R(1000),
@@ -93,13 +101,14 @@ FromKelvin(k) == k - KOffset
 NoExpr == [op |-> "none"]
 NoTemp == [t0 |-> 0, s0 |-> "none", scale |-> "none", v |-> 0, steps |-> 0]
 NoCur  == [n |-> RZero, u |-> "none"]
-NoStart == [val |-> "none", u |-> "none"]
+NoStart == [val |-> "none", u |-> "none", k |-> 0]
 
 Q0 == TimesUnit(Vals[start.val], Units[start.u])          \* the quantity a chain starts from
 
 InitChain == /\ mode = "chain"
-             /\ \E val \in ValueNames, u \in UnitNames :
-                   /\ start = [val |-> val, u |-> u]
+             /\ \E val \in ValueNames, u \in UnitNames, k \in ImagFactors \cup {0} :
+                   /\ (k # 0 => val \in ComplexVals)
+                   /\ start = [val |-> val, u |-> u, k |-> k]
                    /\ cur = [n |-> Vals[val], u |-> u]
                    /\ chain = <<u>>
              /\ err = FALSE /\ expr = NoExpr /\ temp = NoTemp
@@ -141,13 +150,23 @@ Evaluate(op, x, y) ==                      \* the same arithmetic on the SI numb
     [] op = "sub" -> RSub(x, y) [] op = "sq" -> RMul(x, x) [] op = "scale" -> RMul(y, x)
 
 Combine(op, val2, u2) ==
-  /\ mode = "chain" /\ ~err /\ expr = NoExpr /\ Len(chain) = 1
+  /\ mode = "chain" /\ ~err /\ expr = NoExpr /\ Len(chain) = 1 /\ start.k = 0
   /\ (op = "sq" => val2 = start.val /\ u2 = start.u)          \* the square has one operand
   /\ MulOK(Vals[val2], Units[u2].v)
   /\ LET a == Q0   b == TimesUnit(Vals[val2], Units[u2]) IN
        /\ ExprDefined(op, a, b)
        /\ expr' = [op |-> op, b |-> [val |-> val2, u |-> u2], si |-> Evaluate(op, ToSI(a), ToSI(b)),
                    d |-> Meaning(op, a, b).d]
+  /\ UNCHANGED <<mode, start, cur, chain, err, temp>>
+
+\* the Celsius helper for quantities: n kelvin |-> n - 273.15 degrees Celsius; anything that is not a
+\* temperature is refused (a zero quantity has no dimension to speak of: not decided)
+KOffsetR == <<5463, 20>>                                      \* 273.15
+ToCelsius ==
+  /\ mode = "chain" /\ ~err /\ expr = NoExpr /\ Len(chain) = 1 /\ start.k = 0
+  /\ IF Equiv(Q0.d, K1)
+     THEN AddOK(Q0.v, KOffsetR) /\ expr' = [op |-> "celsius", ok |-> TRUE, c |-> RSub(Q0.v, KOffsetR)]
+     ELSE Q0.v # RZero /\ expr' = [op |-> "celsius", ok |-> FALSE, c |-> RZero]
   /\ UNCHANGED <<mode, start, cur, chain, err, temp>>
 
 TempStep ==
@@ -159,6 +178,7 @@ TempStep ==
 
 Next == \/ \E u2 \in UnitNames : Convert(u2)
         \/ \E op \in ExprOps, val2 \in ExprVals \cup {start.val}, u2 \in ExprUnits \cup {start.u} : Combine(op, val2, u2)
+        \/ ToCelsius
         \/ TempStep
 
 Spec == Init /\ [][Next]_vars
@@ -184,7 +204,7 @@ Linear == InChain /\ ~err /\ MulOK(R(2), cur.n) /\ MulOK(R(2), Q0.v) /\ MulOK(RM
             => ConvertTo(U(RMul(R(2), Q0.v), Q0.d), Units[cur.u]) = RMul(R(2), cur.n)
 \* evaluating on SI numbers gives the SI value of the expression
 EvaluationPreservesValue ==
-  expr # NoExpr => LET b == TimesUnit(Vals[expr.b.val], Units[expr.b.u]) IN
+  (expr # NoExpr /\ expr.op # "celsius") => LET b == TimesUnit(Vals[expr.b.val], Units[expr.b.u]) IN
                      /\ expr.si = ToSI(Meaning(expr.op, Q0, b))
                      /\ expr.d = Meaning(expr.op, Q0, b).d
 \* the Celsius / kelvin helpers are mutual inverses, offset 273.15
@@ -192,6 +212,12 @@ TempInverse == mode = "temp" =>
   /\ (temp.scale = temp.s0 => temp.v = temp.t0)
   /\ (temp.scale # temp.s0 => temp.v = IF temp.s0 = "C" THEN temp.t0 + KOffset ELSE temp.t0 - KOffset)
   /\ FromKelvin(ToKelvin(temp.v)) = temp.v /\ ToKelvin(FromKelvin(temp.v)) = temp.v
+\* the Celsius helper accepts exactly temperatures and is the inverse of adding the offset
+CelsiusHelper == (expr # NoExpr /\ expr.op = "celsius") =>
+  /\ expr.ok = Equiv(Q0.d, K1)
+  /\ (expr.ok => RAdd(expr.c, KOffsetR) = Q0.v)
+\* a number that is handed out as a float must be the whole number: only real values qualify
+FloatRepresentable == start.k = 0
 TypeOK == /\ mode \in {"chain", "temp"}
           /\ mode = "chain" => IsRat(cur.n) /\ Len(chain) \in 1..(MaxChain + 1)
           /\ err \in BOOLEAN
@@ -202,8 +228,10 @@ DimSeq(d) == <<d["L"], d["M"], d["T"], d["I"], d["K"], d["N"], d["J"], d["A"]>>
 Emit ==
   /\ (InChain /\ Len(chain) >= 2) =>
         PrintT(ToJson([k |-> "chain", val |-> start.val, chain |-> chain, n |-> cur.n, err |-> err, si |-> Q0.v,
-                       d |-> DimSeq(Q0.d)]))
-  /\ (mode = "chain" /\ expr # NoExpr) =>
+                       d |-> DimSeq(Q0.d), im |-> start.k, flt |-> FloatRepresentable]))
+  /\ (mode = "chain" /\ expr # NoExpr /\ expr.op = "celsius") =>
+        PrintT(ToJson([k |-> "celsius", a |-> start, ok |-> expr.ok, c |-> expr.c]))
+  /\ (mode = "chain" /\ expr # NoExpr /\ expr.op # "celsius") =>
         PrintT(ToJson([k |-> "expr", op |-> expr.op, a |-> start, b |-> expr.b, si |-> expr.si, d |-> DimSeq(expr.d)]))
   /\ (mode = "temp" /\ temp.steps >= 1) =>
         PrintT(ToJson([k |-> "temp", t0 |-> temp.t0, s0 |-> temp.s0, steps |-> temp.steps, scale |-> temp.scale,
